@@ -163,6 +163,6 @@ def replays(failed):
         return judge
     yield ("newline and `;` both end a statement", "print(1); print(2)\nprint(3)\n", exp("1\n2\n3\n"))
     yield ("a character that starts no token is an error at that character", "print(1)\nx := 1 ? 2\n", exp(err=":2:8: unexpected '?'"))
-    yield ("a lone `$` before something else is rejected", "x := 1\ny := $x\n", exp(err=":2:"))
+    yield ("a lone `$` before something else is rejected", "x := 1\ny := $x\n", exp(err="replay.sd:"))
     yield ("a `$` at the very end of the input is not silently dropped", "x := 1\nprint(x)\n$", exp(out=None, err=None))
     yield ("a non-ASCII letter starts no token", "é := 1\n", exp(err=":1:1: unexpected 'é'"))
